@@ -14,7 +14,8 @@ InitGroups == << Entry("g1", <<Attr("member", <<"u1">>)>>) >>
 UserPool  == {"u1", "u2", "n1", "n2"}
 
 VARIABLE l          \* index of the last consumed line
-tvars == <<users, groups, allowAnon, reply, l>>
+tvars == <<users, groups, allowAnon, reply, tokenGroups, l>>
+TG1 == [s \in {"S1"} |-> <<Entry("t1", <<Attr("a1", <<"v1">>)>>), Entry("t2", <<>>)>>]
 
 InitT == /\ l \in {i \in 1..Len(T) : T[i].op = "reset"}
          /\ DirInit(InitUsers, InitGroups)
@@ -27,6 +28,7 @@ NextT ==
   \/ IsOp("setusers") /\ SetUsers(IF e.dn = "init" THEN InitUsers ELSE <<>>)
   \/ IsOp("setgroups") /\ SetGroups(<<>>)
   \/ IsOp("setanon") /\ SetAnon(e.b)
+  \/ IsOp("settokengroups") /\ SetTokenGroups(IF e.dn = "tg1" THEN TG1 ELSE <<>>)
   \/ IsOp("bind") /\ Bind(e.dn, e.pw)
 
 Bad(what, exp, got) == Print(<<"MISMATCH", what, l, exp, got>>, FALSE)
@@ -46,6 +48,22 @@ SearchConforms ==
   /\ \A dn \in UserPool : Canon(cur.found[dn]) = Canon(SearchUsers(dn)) \/ Bad(<<"search users", dn>>, SearchUsers(dn), cur.found[dn])
   /\ Canon(cur.found["g1"]) = Canon(SearchGroups("g1")) \/ Bad(<<"search groups", "g1">>, SearchGroups("g1"), cur.found["g1"])
   /\ cur.found["mz"] = <<>> \/ Bad(<<"search", "mz">>, <<>>, cur.found["mz"])
+\* the result code of every search: success exactly when something was found
+SearchCodesConform ==
+  cur.op = "reset" \/ \A dn \in DOMAIN cur.found :
+     cur.codes[dn] = SearchCode(cur.found[dn]) \/ Bad(<<"search code", dn>>, SearchCode(cur.found[dn]), cur.codes[dn])
+\* the same entries through the route without base DN (base = the entry's DN), whatever token groups are configured
+GenericSearchConforms ==
+  cur.op = "reset" \/ \A dn \in DOMAIN cur.gen :
+     \/ /\ Canon(cur.gen[dn]) = Canon(SearchGeneric(dn))
+        /\ cur.gcodes[dn] = SearchCode(SearchGeneric(dn))
+     \/ Bad(<<"generic search", dn>>, SearchGeneric(dn), <<cur.gen[dn], cur.gcodes[dn]>>)
+\* token groups by SID: the configured entries (S1), nothing for an unknown SID (S9)
+TokenGroupsConform ==
+  cur.op = "reset" \/ \A sid \in DOMAIN cur.sid :
+     \/ /\ Canon(cur.sid[sid]) = Canon(SearchSID(sid).found)
+        /\ cur.sidcodes[sid] = SearchSID(sid).code
+     \/ Bad(<<"token groups", sid>>, SearchSID(sid), <<cur.sid[sid], cur.sidcodes[sid]>>)
 \* C19 on histories: the bind result is the model's for the current users
 BindConforms == cur.op # "bind" \/ cur.code = BindResult(users, allowAnon, cur.dn, cur.pw) \/ Bad("bind", reply, cur.code)
 \* every line of every trace is consumed (deterministic trace spec: a state whose next line is not a
